@@ -98,6 +98,7 @@ type Result struct {
 	States         int64 // distinct canonical states seen (all depths)
 	Transitions    int64 // events executed in the deepest completed iteration
 	TotalExecuted  int64 // events executed over all iterations
+	Attempts       int64 // events attempted over all iterations, including rejected / not-applicable ones (each is judged)
 	MaximalTraces  int64 // traces that reached the depth bound or a state with nothing new
 	DepthCompleted int
 	DepthTarget    int
@@ -152,6 +153,7 @@ type search struct {
 	cfg     Config
 	vis     *visited
 	trans   atomic.Int64
+	tries   atomic.Int64
 	maximal atomic.Int64
 	stop    atomic.Bool
 	timeup  atomic.Bool
@@ -210,6 +212,7 @@ func (s *search) dfs(w Worker, n Node, remaining int, trace []string) {
 			return
 		}
 		child, vs := w.Apply(n, ev)
+		s.tries.Add(1)
 		t2 := append(trace, ev)
 		s.report(vs, t2)
 		if child == nil {
@@ -314,6 +317,7 @@ func Run(sc Scenario, cfg Config) (*Result, error) {
 					return
 				}
 				c, vs := w0.Apply(n, ev)
+				s.tries.Add(1)
 				t2 := append(append([]string{}, trace...), ev)
 				s.report(vs, t2)
 				if c == nil {
@@ -370,6 +374,7 @@ func Run(sc Scenario, cfg Config) (*Result, error) {
 		res.Samples = s.samples
 	}
 	res.TotalExecuted = total
+	res.Attempts = s.tries.Load()
 	res.States = s.vis.size()
 	res.Exhaustive = res.DepthCompleted == cfg.MaxDepth
 	for _, f := range s.found {
